@@ -289,6 +289,21 @@ func init() {
 					g.emit("time", fl, hx("A="+lay), hxs(lines))
 				}
 			}
+			// several programs in one process, with different options, parsing the same texts one
+			// after the other (a few lines each, so that nothing is pushed out of any memo in between):
+			// what one program's options made of a text is not what another's make of it
+			for _, lay := range c07Layouts {
+				var lines []string
+				for k, in := range c07Instants() {
+					if k < 6 {
+						lines = append(lines, "A "+in.Format(lay))
+					}
+				}
+				lines = append(lines, "A "+c07Values[0], lines[0])
+				for _, fl := range []string{"-", "y", "zEurope/Paris", "y+zEurope/Paris", "y", "-", "y+zUTC", "zUTC", "-"} {
+					g.emit("time", fl, hx("A="+lay), hxs(lines))
+				}
+			}
 			// pairs of layouts in one program: the same value under two layouts, in both orders
 			for i, la := range c07Layouts {
 				for j, lb := range c07Layouts {
